@@ -100,6 +100,15 @@ def exprs():
     E.append(("case when p then a end", "int", lambda r: r["a"] if r["p"] is True else None))
     E.append(("case when a = 1 then 10 when a = 2 then 20 else b end", "int", lambda r: 10 if r["a"] == 1 else 20 if r["a"] == 2 else r["b"]))
     E.append(("case when q then b else null end", "int", lambda r: r["b"] if r["q"] is True else None))
+    # several WHEN branches that can be true for the same row: the first one wins (searched and simple form)
+    E.append(("case when a > 0 then 10 when a > -5 then 20 when a is null then 30 else 40 end", "int",
+              lambda r: 30 if r["a"] is None else 10 if r["a"] > 0 else 20 if r["a"] > -5 else 40))
+    E.append(("case when p then 1 when q then 2 when p is null then 3 end", "int",
+              lambda r: 1 if r["p"] is True else 2 if r["q"] is True else 3 if r["p"] is None else None))
+    E.append(("case a when 1 then 10 when 1 then 20 when b then 30 else 40 end", "int",
+              lambda r: 10 if r["a"] == 1 else 30 if (r["a"] is not None and r["a"] == r["b"]) else 40))
+    E.append(("case when s = 'x' then 'first' when s like 'x%' then 'second' else u end", "str",
+              lambda r: "first" if r["s"] == "x" else "second" if (r["s"] is not None and r["s"].startswith("x")) else r["u"]))
     E.append(("s || u", "str", lambda r: n2(lambda x, y: x + y)(r["s"], r["u"])))
     for pat in ("x%", "%", "", "_%", "%b", "x_"):
         E.append((f"s like '{pat}'", "bool", lambda r, pat=pat: None if r["s"] is None else like(r["s"], pat)))
